@@ -99,6 +99,8 @@ type Input struct {
 	EF    *Expr  `json:"ef,omitempty"`
 	EU    *Expr  `json:"eu,omitempty"`
 	How   int    `json:"how,omitempty"` // cli: 0 default tag, 1 flag, 2 env, 3 config file
+	Name  string `json:"name,omitempty"` // ingest: the fresh series the upload goes to
+	Off   int64  `json:"off,omitempty"`  // ingest: where the generator expects a relative argument to land (now + Off s); only used to choose a probe
 	IsDur bool   `json:"isdur,omitempty"`
 }
 
@@ -656,7 +658,48 @@ func genCli(r *rand.Rand) Input {
 	return in
 }
 
+// /ingest: from = until = one argument (a single 10 s slot); the data is then looked for with storage.Get
+func genIngest(r *rand.Rand) Input {
+	in := Input{Kind: "ingest", Name: fmt.Sprintf("c17i%08x%04x", r.Uint32(), r.Intn(65536))}
+	switch r.Intn(8) {
+	case 0, 1, 2: // plausible dates inside the supported epoch block (1997-05-24 .. 2029-01-28)
+		t := time.Date(1997, 5, 25, 0, 0, 0, 0, time.UTC).AddDate(0, 0, r.Intn(11560))
+		d := []byte(t.Format("20060102"))
+		in.EF, in.From = &Expr{X: "digits", Digits: d}, d
+	case 3: // implausible 8-digit strings: Unix seconds
+		d := []byte(lib.Pick(r, []string{"20201301", "20210230", "20200132", "20200001", "20200100", "19000101", "19001231", "20230229", "99999999", "00000000", "12345678"}))
+		in.EF, in.From = &Expr{X: "digits", Digits: d}, d
+	case 4, 5: // 10-digit timestamps inside the block, 7- and 9-digit strings that look like dates
+		d := []byte(strconv.FormatInt(864403200+r.Int63n(1000000000), 10))
+		if lib.Chance(r, 0.25) {
+			d = []byte(lib.Pick(r, []string{"2020010", "202001011", "020200101", "1997052"}))
+		}
+		in.EF, in.From = &Expr{X: "digits", Digits: d}, d
+	default: // relative expressions
+		units := []struct {
+			s   string
+			sec int64
+		}{{"s", 1}, {"sec", 1}, {"seconds", 1}, {"min", 60}, {"minutes", 60}, {"h", 3600}, {"hours", 3600}, {"d", 86400}, {"day", 86400}}
+		e := &Expr{X: "rel", Ref: Bs(lib.Pick(r, []string{"now", ""})), Sign: '-'}
+		n := lib.Range(r, 1, 3)
+		for i := 0; i < n; i++ {
+			u := lib.Pick(r, units)
+			k := int64(lib.Range(r, 0, 40))
+			if u.sec == 86400 {
+				k = int64(lib.Range(r, 0, 3))
+			}
+			e.Terms = append(e.Terms, Term{Num: []byte(strconv.FormatInt(k, 10)), Unit: Bs(u.s)})
+			in.Off -= k * u.sec
+		}
+		in.EF, in.From = e, renderRel(e)
+	}
+	return in
+}
+
 func gen(r *rand.Rand, idx int, tier string) Input {
+	if idx%20 == 18 && idx%40 == 38 {
+		return genIngest(r)
+	}
 	switch idx % 20 {
 	case 0, 1, 2, 3, 4, 5:
 		return genAt(r)
@@ -931,6 +974,81 @@ func runRender(in Input) lib.Result {
 		Obs:  map[string]interface{}{"status": status}}
 }
 
+func runIngest(in Input) lib.Result {
+	srvOnce.Do(setupServer)
+	if srvErr != nil {
+		return lib.Result{Crash: "harness: cannot set up the server: " + srvErr.Error()}
+	}
+	q := url.Values{}
+	q.Set("from", string(in.From))
+	q.Set("until", string(in.From))
+	q.Set("name", in.Name)
+	req := httptest.NewRequest("POST", "/ingest?"+q.Encode(), strings.NewReader("a;b 1\n"))
+	rec := httptest.NewRecorder()
+	status := 0
+	var crash string
+	t0 := time.Now()
+	done := make(chan struct{})
+	go func() {
+		defer close(done)
+		defer func() {
+			if r := recover(); r != nil {
+				crash = fmt.Sprint(r)
+			}
+		}()
+		srvMux.ServeHTTP(rec, req)
+		status = rec.Code
+	}()
+	select {
+	case <-done:
+	case <-time.After(20 * time.Second):
+		return lib.Result{Crash: "ingest hung for 20 s"}
+	}
+	t1 := time.Now()
+	// where to look: the Unix-seconds reading, the calendar-date reading, around now + Off, and the whole range
+	type win struct{ lo, hi int64 }
+	var wins []win
+	fl := func(t int64) int64 { return t / 10 * 10 }
+	if in.EF != nil && in.EF.X == "digits" {
+		if v, err := strconv.ParseInt(string(in.EF.Digits), 10, 64); err == nil && v >= 0 && v < 4000000000 {
+			wins = append(wins, win{fl(v), fl(v) + 10})
+		}
+		if len(in.EF.Digits) == 8 {
+			if d, err := time.Parse("20060102", string(in.EF.Digits)); err == nil && d.Unix() >= 0 {
+				wins = append(wins, win{d.Unix(), d.Unix() + 10})
+			}
+		}
+	} else {
+		wins = append(wins, win{fl(t0.Unix() + in.Off), fl(t1.Unix()+in.Off) + 10})
+	}
+	wins = append(wins, win{0, 4000000000})
+	key, _ := storage.ParseKey(in.Name)
+	probes := make([]string, len(wins))
+	anyFound := false
+	for i, w := range wins {
+		found := false
+		func() {
+			defer func() {
+				if r := recover(); r != nil {
+					crash = fmt.Sprintf("storage.Get panicked: %v", r)
+				}
+			}()
+			g, err := srvStor.Get(&storage.GetInput{StartTime: time.Unix(w.lo, 0), EndTime: time.Unix(w.hi, 0), Key: key})
+			found = err == nil && g != nil && g.Tree != nil && g.Tree.Samples() > 0
+		}()
+		anyFound = anyFound || found
+		probes[i] = "(" + lib.Z(w.lo) + ", " + lib.Z(w.hi) + ", " + lib.Bool(found) + ")"
+	}
+	coq := "(CIngest " + cb(in.From) + " " + coqAt(in.EF) + " " + nsOf(t0) + " " + nsOf(t1) + " " + lib.Z(int64(status)) + " " + lib.List(probes) + ")"
+	prod := "junk"
+	if in.EF != nil {
+		prod = in.EF.X
+	}
+	return lib.Result{Coq: coq, NonTrivial: true, Crash: crash,
+		Feat: map[string]interface{}{"kind": "ingest", "production": "ingest/" + prod, "ingest_status": status, "ingest_found": anyFound},
+		Obs:  map[string]interface{}{"status": status, "probes": probes}}
+}
+
 var cliMu sync.Mutex
 
 func runCli(in Input) lib.Result {
@@ -1014,6 +1132,8 @@ func run(in Input) lib.Result {
 		return runRender(in)
 	case "cli":
 		return runCli(in)
+	case "ingest":
+		return runIngest(in)
 	}
 	return lib.Result{Crash: "harness: unknown kind " + in.Kind}
 }
